@@ -1,22 +1,132 @@
 """Contracts for mabwiser/greedy.py (_EpsilonGreedy)."""
 from pyvc.spec import klass, fn
-from specs.base_mab import FIT_PARAMS, ARM_PARAMS
+from specs.base_mab import (FIT_PARAMS, ARM_PARAMS, INIT_PARAMS, PRED_PARAMS, status_fresh, forall_arms, pe_result,
+                            pred_result, SINGLE)
 
 klass('_EpsilonGreedy',
       fields={'epsilon': 'real const', 'arm_to_sum': 'map:real', 'arm_to_count': 'map:real'},
-      inv=['[C08,keys.sum] keys(self.arm_to_sum) == self.arms',
-           '[C08,keys.count] keys(self.arm_to_count) == self.arms',
-           '[C01,stat.count] forall_arm(lambda a: implies(mem(self.arms, a), val(self.arm_to_count, a) >= 0))',
+      inv=['[C08,keys.sum] keys(self.arm_to_sum) == keys(self.arm_to_expectation)',
+           '[C08,keys.count] keys(self.arm_to_count) == keys(self.arm_to_expectation)',
+           '[C01,stat.count] ' + forall_arms('val(self.arm_to_count, a) >= 0'),
            # C01: the exploit value is the running mean of the arm's rewards, 0 for an arm without observations
-           '[C01,C06,stat.mean] forall_arm(lambda a: implies(mem(self.arms, a), val(self.arm_to_expectation, a) == '
-           '(val(self.arm_to_sum, a) / val(self.arm_to_count, a) if val(self.arm_to_count, a) > 0 else 0)))'])
+           '[C01,C06,stat.mean] ' + forall_arms('val(self.arm_to_expectation, a) == (val(self.arm_to_sum, a) / '
+                                               'val(self.arm_to_count, a) if val(self.arm_to_count, a) > 0 else 0)')])
+
+fn('greedy._EpsilonGreedy.__init__', props='C01 C04 C08', inline=True,
+   params={**INIT_PARAMS, 'epsilon': 'real'},
+   requires=['distinct(arms)', 'n_jobs != 0'],
+   modifies=['self.**'],
+   ensures=['[alias.arms] same(self.arms, arms)', '[alias.rng] same(self.rng, rng)', 'self.epsilon == epsilon',
+            'self.n_jobs == n_jobs', 'INV',
+            '[neutral] ' + forall_arms('val(self.arm_to_sum, a) == 0 and val(self.arm_to_count, a) == 0 and '
+                                       'val(self.arm_to_expectation, a) == 0 and ' + status_fresh())])
 
 fn('greedy._EpsilonGreedy._fit_arm', props='C01 C05 C06 C07 C20',
    params={'arm': 'arm', **FIT_PARAMS},
-   requires=['INV.keys', 'mem(self.arms, arm)', 'slen(decisions) == slen(rewards)',
+   requires=['INV.keys', 'INV.arms', 'mem(self.arms, arm)', 'slen(decisions) == slen(rewards)',
              'val(self.arm_to_count, arm) >= 0'],
    modifies=['self.arm_to_sum[arm]', 'self.arm_to_count[arm]', 'self.arm_to_expectation[arm]'],
    ensures=['[sum] self.arm_to_sum[arm] == old(self.arm_to_sum[arm]) + ssum(sel(rewards, decisions, arm))',
             '[count] self.arm_to_count[arm] == old(self.arm_to_count[arm]) + cnt(decisions, arm)',
             '[mean] self.arm_to_expectation[arm] == (self.arm_to_sum[arm] / self.arm_to_count[arm] '
             'if cnt(decisions, arm) > 0 else old(self.arm_to_expectation[arm]))'])
+
+STATUS_AFTER_FIT = forall_arms('val(self.arm_to_status, a, "is_trained") == (cnt(decisions, a) > 0) and '
+                               'not val(self.arm_to_status, a, "is_warm") and '
+                               'val(self.arm_to_status, a, "warm_started_by") == NONE_ARM()')
+STATUS_AFTER_PARTIAL = forall_arms(
+    'val(self.arm_to_status, a, "is_trained") == (old(val(self.arm_to_status, a, "is_trained")) or cnt(decisions, a) > 0) '
+    'and val(self.arm_to_status, a, "is_warm") == old(val(self.arm_to_status, a, "is_warm")) and '
+    'val(self.arm_to_status, a, "warm_started_by") == old(val(self.arm_to_status, a, "warm_started_by"))')
+
+fn('greedy._EpsilonGreedy.fit', props='C01 C06 C07 C08 C20',
+   params=FIT_PARAMS,
+   requires=['INV.keys', 'INV.arms', 'slen(decisions) == slen(rewards)', 'slen(self.arms) > 0'],
+   modifies=['self.arm_to_sum[*]', 'self.arm_to_count[*]', 'self.arm_to_expectation[*]', 'self.arm_to_status'],
+   ensures=['INV',
+            # C07: every learned quantity is a function of the new data only (no old(...) on the right-hand side)
+            '[C01,C07,fresh.sum] ' + forall_arms('val(self.arm_to_sum, a) == ssum(sel(rewards, decisions, a))'),
+            '[C01,C07,fresh.count] ' + forall_arms('val(self.arm_to_count, a) == cnt(decisions, a)'),
+            '[C07,C13,fresh.status] ' + STATUS_AFTER_FIT])
+
+fn('greedy._EpsilonGreedy.partial_fit', props='C01 C06 C08 C20',
+   params=FIT_PARAMS,
+   requires=['INV', 'slen(decisions) == slen(rewards)', 'slen(self.arms) > 0'],
+   modifies=['self.arm_to_sum[*]', 'self.arm_to_count[*]', 'self.arm_to_expectation[*]', 'self.arm_to_status[*]'],
+   ensures=['INV',
+            '[C01,C06,acc.sum] ' + forall_arms('val(self.arm_to_sum, a) == old(val(self.arm_to_sum, a)) + '
+                                               'ssum(sel(rewards, decisions, a))'),
+            '[C01,C06,acc.count] ' + forall_arms('val(self.arm_to_count, a) == old(val(self.arm_to_count, a)) + '
+                                                 'cnt(decisions, a)'),
+            '[C13,acc.status] ' + STATUS_AFTER_PARTIAL])
+
+# expectation reported for arm a when there is no context / one row: with probability epsilon a fresh uniform draw
+# per arm (in arm order), otherwise the stored mean.  s0 is the stream state at entry.
+S0 = 'old(rngstate(self.rng))'
+E1 = ('(draw_u(unext(next_u(%s), pos(self.arms, a))) if draw_u(%s) < self.epsilon else val(self.arm_to_expectation, a))'
+      % (S0, S0))
+M = 'rows(contexts)'
+N = 'slen(self.arms)'
+EM = ('(mat_at(draw_um(next_uv(%s, %s), %s, %s), j, pos(self.arms, a)) if at(draw_uv(%s, %s), j) < self.epsilon '
+      'else val(self.arm_to_expectation, a))' % (S0, M, M, N, S0, M))
+
+fn('greedy._EpsilonGreedy.predict_expectations', props='C01 C08 C09 C10',
+   params=PRED_PARAMS, result=pe_result,
+   requires=['INV'],
+   modifies=['self.rng.rng.state'],
+   ensures=['[C08,shape] is_dict(result) == %s' % SINGLE,
+            '[C08,keys] (keys(result) == self.arms) if is_dict(result) else (slen(result) == rows(contexts) and '
+            'forall_int(lambda j: implies(0 <= j and j < rows(contexts), keys(item(result, j)) == self.arms)))',
+            '[C01,C09,values] (forall_arm(lambda a: implies(mem(self.arms, a), val(result, a) == %s))) '
+            'if is_dict(result) else forall_int(lambda j: implies(0 <= j and j < rows(contexts), '
+            'forall_arm(lambda a: implies(mem(self.arms, a), val(item(result, j), a) == %s))))' % (E1, EM),
+            '[C10,stream] rngstate(self.rng) == ((unext(next_u(%s), %s) if draw_u(%s) < self.epsilon else next_u(%s)) '
+            'if is_dict(result) else next_um(next_uv(%s, %s), %s, %s))' % (S0, N, S0, S0, S0, M, M, N)])
+
+fn('greedy._EpsilonGreedy.predict', props='C08 C09 C10',
+   params=PRED_PARAMS, result=pred_result,
+   requires=['INV', 'slen(self.arms) > 0'],
+   modifies=['self.rng.rng.state'],
+   ensures=['[C08,shape] is_list(result) == (not %s)' % SINGLE,
+            # C09: the first arm attaining the maximum of the expectations predict_expectations returns
+            '[C09,argmax] (result == argmax_over(self.arms, lambda a: %s)) if not is_list(result) else '
+            '(slen(result) == rows(contexts) and forall_int(lambda j: implies(0 <= j and j < rows(contexts), '
+            'at(result, j) == argmax_over(self.arms, lambda a: %s))))' % (E1, EM),
+            '[C08,member] mem(self.arms, result) if not is_list(result) else '
+            'forall_int(lambda j: implies(0 <= j and j < rows(contexts), mem(self.arms, at(result, j))))',
+            '[C10,stream] rngstate(self.rng) == ((unext(next_u(%s), %s) if draw_u(%s) < self.epsilon else next_u(%s)) '
+            'if not is_list(result) else next_um(next_uv(%s, %s), %s, %s))' % (S0, N, S0, S0, S0, M, M, N)])
+
+# ---- arm changes (BaseMAB.add_arm / remove_arm with this class's hooks).  MAB has already appended / removed
+# the label in the shared arm list when these run.
+ADD_REQ = ['INV~arms', 'self.arms == appended(keys(self.arm_to_expectation), arm)',
+           'not inkeys(self.arm_to_expectation, arm)']
+REM_REQ = ['INV~arms', 'self.arms == removed(keys(self.arm_to_expectation), arm)',
+           'inkeys(self.arm_to_expectation, arm)']
+
+
+def unchanged(maps, status=True):
+    parts = ['val(self.%s, a) == old(val(self.%s, a))' % (m, m) for m in maps]
+    if status:
+        parts += ['val(self.arm_to_status, a, "%s") == old(val(self.arm_to_status, a, "%s"))' % (c, c)
+                  for c in ('is_trained', 'is_warm', 'warm_started_by')]
+    return ' and '.join(parts)
+
+
+GREEDY_MAPS = ['arm_to_sum', 'arm_to_count', 'arm_to_expectation']
+fn('base_mab.BaseMAB.add_arm', cls='_EpsilonGreedy', props='C01 C08',
+   params={'arm': 'arm', 'binarizer': 'opt:callable'},
+   requires=ADD_REQ,
+   modifies=['self.arm_to_sum{}', 'self.arm_to_count{}', 'self.arm_to_expectation{}', 'self.arm_to_status{}'],
+   ensures=['INV',
+            '[C01,neutral] val(self.arm_to_sum, arm) == 0 and val(self.arm_to_count, arm) == 0 and '
+            'val(self.arm_to_expectation, arm) == 0 and ' + status_fresh('arm'),
+            '[C01,others] forall_arm(lambda a: implies(old(inkeys(self.arm_to_expectation, a)), %s))'
+            % unchanged(GREEDY_MAPS)])
+fn('base_mab.BaseMAB.remove_arm', cls='_EpsilonGreedy', props='C01 C08',
+   params={'arm': 'arm'},
+   requires=REM_REQ,
+   modifies=['self.arm_to_sum{}', 'self.arm_to_count{}', 'self.arm_to_expectation{}', 'self.arm_to_status{}'],
+   ensures=['INV',
+            '[C01,others] forall_arm(lambda a: implies(inkeys(self.arm_to_expectation, a), %s))'
+            % unchanged(GREEDY_MAPS)])
